@@ -102,8 +102,13 @@ func c19Build(cfg c19Cfg) *restful.Container {
 		item.Filter(logging("r"))
 	}
 	ws.Route(item)
-	ws.Route(ws.GET("/other/{name}").If(cond).To(echo("other")))
+	// registered PUT before GET: the Allow header of a 405 lists them in this order
 	ws.Route(ws.PUT("/other/{name}").If(cond).To(echo("other-put")))
+	ws.Route(ws.GET("/other/{name}").If(cond).To(echo("other")))
+	// an entity negotiated between two representations
+	ws.Route(ws.GET("/ent").Produces(restful.MIME_XML, restful.MIME_JSON).To(func(req *restful.Request, resp *restful.Response) {
+		resp.WriteEntity(c19Ent{"negotiated who=" + fmt.Sprint(req.Attribute("who"))})
+	}))
 	ws.Route(ws.POST("/item").To(func(req *restful.Request, resp *restful.Response) {
 		var v c19Ent
 		if err := req.ReadEntity(&v); err != nil {
@@ -153,6 +158,10 @@ func c19Q() []h.Req {
 		{Method: "DELETE", Segs: []string{"api", "other", "n"}, Hdr: [][2]string{{"X-Who", "erin"}}},
 		{Method: "GET", Segs: []string{"b", "thing", "5"}, Hdr: [][2]string{{"X-Who", "frank"}}},
 		{Method: "GET", Segs: []string{"hwf", "file"}, Hdr: [][2]string{{"X-Who", "gina"}}},
+		// two Accept headers that differ only in letter case (and so in meaning: parameter names are
+		// matched exactly by the negotiation code)
+		{Method: "GET", Segs: []string{"api", "ent"}, Hdr: [][2]string{{"X-Who", "hal"}, {"Accept", "application/xml;Q=0.1, application/json"}}},
+		{Method: "GET", Segs: []string{"api", "ent"}, Hdr: [][2]string{{"X-Who", "ivy"}, {"Accept", "application/xml;q=0.1, application/json"}}},
 	}
 }
 
@@ -192,10 +201,7 @@ func c19Key(rec *h.Rec) string {
 	var sb strings.Builder
 	fmt.Fprintf(&sb, "%d %q", rec.Code, dec)
 	for _, k := range keys {
-		vals := hd[k]
-		if k == "Allow" || k == "Access-Control-Allow-Methods" {
-			vals = h.SetOf(strings.Join(vals, ","))
-		}
+		vals := hd[k] // verbatim, including the order of the methods in Allow
 		fmt.Fprintf(&sb, " %s=%q", k, vals)
 	}
 	return sb.String()
@@ -347,7 +353,7 @@ func checkC19(run *h.Run) {
 	run.Cov["distinct_nontrivial"] = states
 	run.Cov["distinct_outcomes"] = outcomes.Len()
 	run.Cov["exhaustive"] = true
-	run.Cov["rule"] = fmt.Sprintf("E2: configurations {plain, 3 container + service + route filters, CORS with computed methods, OPTIONS filter, encoding with bounded(1) provider} x {CurlyRouter, RouterJSR311} x entry {Dispatch, ServeHTTP} x trace {off, on}: every sequence over the request set Q (%d requests: two GETs on one template, POST entity, 404, 405, CORS preflight, a handler that dispatches a nested request, a second template with other methods incl. its preflight and 405, a second service, a plain handler behind HandleWithFilter) of length <= %d on one container, plus the 1000-fold repetition of each request; the last response (status, all headers, decoded body with echoed parameters / attribute / selected route) must equal the response on a fresh container with trace off. E3 (instrumented): every pair (thorough: also triples) of Q concurrently, all schedules within the preemption bound, same oracle per request, happens-before race detection; then the free-running -race pass. Every history is non-trivial.", len(q), depth)
+	run.Cov["rule"] = fmt.Sprintf("E2: configurations {plain, 3 container + service + route filters, CORS with computed methods, OPTIONS filter, encoding with bounded(1) provider} x {CurlyRouter, RouterJSR311} x entry {Dispatch, ServeHTTP} x trace {off, on}: every sequence over the request set Q (%d requests: two GETs on one template, POST entity, 404, 405, CORS preflight, a handler that dispatches a nested request, a second template with other methods incl. its preflight and 405, a second service, a plain handler behind HandleWithFilter, an entity negotiated between XML and JSON under two Accept headers that differ only in letter case) of length <= %d on one container, plus the 1000-fold repetition of each request; the last response (status, all headers, decoded body with echoed parameters / attribute / selected route) must equal the response on a fresh container with trace off. E3 (instrumented): every pair (thorough: also triples) of Q concurrently, all schedules within the preemption bound, same oracle per request, happens-before race detection; then the free-running -race pass. Every history is non-trivial.", len(q), depth)
 	run.Assume = []string{"differential: the fresh-container response is the reference; handlers also self-check that their own view does not change while they run"}
 	if f := e3Part["C19"]; f != nil {
 		f(run)
